@@ -45,6 +45,9 @@ func Gen(r *hc.RNG, o GenOptions) (Scenario, map[int]bool) {
 		if k == KOther || k == KChOther || k == KAff || k == KChAff {
 			e.Count = hc.Pick(r, 1, 1, 1, 2, 3)
 		}
+		if (k == KOther || k == KChOther) && r.Chance(15) {
+			e.Count = 0 // covers no position (updateReadChannelInbox and the like)
+		}
 		switch e.Seq() {
 		case "pts":
 			pts += e.Count
